@@ -113,6 +113,44 @@ def orderings(m, rng, n_shuffle=4):
     return outs
 
 
+def blocks(ver):
+    """The metric groups a vector is naturally written in (each in specification order)."""
+    g = T.GROUPS[ver]
+    if ver == "4":
+        env = g["environmental"]
+        return [list(T.MANDATORY[ver]), list(g["threat"]), env[:3], env[3:], list(g["supplemental"])]
+    env = g["environmental"]
+    cut = 2 if ver == "2" else 3
+    return [list(T.MANDATORY[ver]), list(g["temporal"]), env[:cut], env[cut:]]
+
+
+def block_orderings(ver, keys, rng=None, n=None):
+    """Field orders that keep every group together and in specification order inside, but put the
+    GROUPS in another order (all permutations, or n random ones): the orders other tools, older
+    releases and other tables of the same project write."""
+    import itertools
+    bl = [[k for k in b if k in keys] for b in blocks(ver)]
+    perms = list(itertools.permutations(range(len(bl))))
+    if n is not None and rng is not None and n < len(perms):
+        perms = rng.sample(perms, n)
+    seen = set()
+    for perm in perms:
+        ks = [k for i in perm for k in bl[i]]
+        if tuple(ks) not in seen:
+            seen.add(tuple(ks))
+            yield ks
+
+
+def foreign_operands():
+    """Values of other types to compare a CVSS object with: strings that ARE vectors of some version
+    (complete, incomplete but well-formed, malformed), bytes, containers, numbers."""
+    return [None, "x", "", 1, 0, 7.5, float("nan"), b"x", b"AV:N/AC:L/Au:N/C:P/I:P/A:P", (1,), [], {}, object(), object, True,
+            "AV:N", "AV:N/AC:L", "AV:N/AC:L/Au:N/C:P/I:P", "CVSS:3.1/AV:N/AC:L", "CVSS:3.0/AV:N", "CVSS:3.1/", "CVSS:4.0/E:A",
+            "CVSS:4.0/AV:N/AC:L/AT:N", "AV:N/AC:L/Au:N/C:P/I:P/A:P", "CVSS:3.1/AV:N/AC:L/PR:N/UI:N/S:U/C:H/I:H/A:H",
+            "CVSS:3.0/AV:N/AC:L/PR:N/UI:N/S:U/C:H/I:H/A:H", "CVSS:4.0/AV:N/AC:L/AT:N/PR:N/UI:N/VC:H/VI:H/VA:H/SC:N/SI:N/SA:N",
+            "CVSS:3.1/AV:N/AV:N", "AV:Z", "AV:N/", "/", ":", "7.5/AV:N/AC:L/Au:N/C:P/I:P/A:P", ("AV:N/AC:L/Au:N/C:P/I:P/A:P",)]
+
+
 # -- hostile single-edit neighbourhood ---------------------------------------
 ALPHABET = list("ABCDEFGHIJKLMNOPQRSTUVWXYZabcdefghijklmnopqrstuvwxyz0123456789:/.-_ \t\n\x00") + ["é", "\U0001f600"]
 
